@@ -68,7 +68,9 @@ INCLUDES = {
     # ... Ok "exactly when the client quits": which command bytes mean Quit is the parser's byte table
     # ... an error "only when something failed": the reader must never hand the transport an empty buffer and take its Ok(0) for the
     # end of the stream (C01.window-invariant, clauses d0/d/e)
-    "C19": [("C12", ALL), ("C02", ["C02.byte-table"]), ("C01", ["C01.window-invariant"])],
+    # ... "makes run_on return an error": it has to return — every loop on the client path leaves when the transport reports the end
+    # of the stream or makes no progress (C20.loop-progress)
+    "C19": [("C12", ALL), ("C02", ["C02.byte-table"]), ("C01", ["C01.window-invariant"]), ("C20", ["C20.loop-progress"])],
     # the parameter iterator unwraps the value parser's result (a known finding): every input the value parser refuses is a crash,
     # so the set it accepts is part of this property until that finding is repaired
     # ... and the parameter count the iterator slices by is the registry's, which must be the one announced (C10)
